@@ -28,7 +28,12 @@ func genLedgerWalk(r *rand.Rand, n int) []Step {
 		case 3, 4:
 			st = append(st, Step{"a": "swapOut", "u": u, "p": p, "din": pick(r, "uusdc", ""), "sz": pick(r, "dust", "s1", "s2", "s3"), "limit": pick(r, "loose", "loose", "tight", "impossible"), "rcpt": pick(r, "", "", "u2")})
 		case 5:
-			st = append(st, Step{"a": "swapIn", "u": u, "route": []any{float64(1), float64(2)}, "din": "uatom", "sz": pick(r, sizes...), "limit": "loose"})
+			if r.Intn(3) == 0 { // a route through the same pool twice
+				pid := float64(1 + r.Intn(2))
+				st = append(st, Step{"a": "swapIn", "u": u, "route": []any{pid, pid}, "din": "uusdc", "sz": pick(r, "s1", "s2"), "limit": "loose"})
+			} else {
+				st = append(st, Step{"a": "swapIn", "u": u, "route": []any{float64(1), float64(2)}, "din": "uatom", "sz": pick(r, sizes...), "limit": "loose"})
+			}
 		case 6:
 			st = append(st, Step{"a": "join", "u": u, "p": p, "sz": pick(r, "s1", "s2", "s3"), "mode": pick(r, "all", "all", "single"), "d": pick(r, "uusdc", "")})
 		case 7:
@@ -108,7 +113,24 @@ func genPositionsWalk(r *rand.Rand, n int) []Step {
 func genScenario(r *rand.Rand, i int) []Step {
 	blk := func(dt int) Step { return Step{"a": "block", "dt": float64(dt)} }
 	u, v := pick(r, "u2", "u3"), "u1"
-	switch i % 8 {
+	switch i % 11 {
+	case 8: // a route that visits the same pool twice (round trip inside one request), then ordinary traffic on that pool
+		return []Step{{"a": "swapIn", "u": u, "route": []any{float64(1), float64(1)}, "din": pick(r, "uatom", "uusdc"), "sz": pick(r, "s1", "s2"), "limit": "loose"}, blk(5),
+			{"a": "swapIn", "u": "u3", "route": []any{float64(2), float64(2)}, "din": "uelys", "sz": pick(r, "s1", "s2"), "limit": "loose", "rcpt": "u2"}, blk(5),
+			{"a": "swapOut", "u": u, "route": []any{float64(1), float64(1)}, "din": "uusdc", "sz": "s1", "limit": "loose"}, blk(5),
+			{"a": "join", "u": "u3", "p": float64(1), "sz": "s1", "mode": "all"}, blk(5)}
+	case 9: // two leveraged positions of one pool made unhealthy and closed by ONE bot message in the block of the price drop
+		return []Step{{"a": "levOpen", "u": "u2", "p": float64(1), "sz": "s1", "lev": "9"}, {"a": "levOpen", "u": "u3", "p": float64(1), "sz": "s1", "lev": "9"},
+			{"a": "levOpen", "u": "u1", "p": float64(1), "sz": "s1", "lev": "2"}, blk(5),
+			{"a": "feed", "asset": "ATOM", "mul": pick(r, "0.75", "0.7")},
+			{"a": "levClosePositions", "u": "bot", "exact": true, "liq": []any{[]any{"u2", float64(1)}, []any{"u3", float64(2)}, []any{"u1", float64(3)}}, "sl": []any{}}, blk(5),
+			{"a": "levClose", "u": "u1", "id": float64(3), "frac": "half"}, blk(5)}
+	case 10: // a stop-loss price that is reached at once: close attempts (bot and sweep) while the opening shares are still locked
+		return []Step{{"a": "levOpen", "u": u, "p": float64(1), "sz": "s1", "lev": "3", "sl": "1000000000"}, blk(5),
+			{"a": "levClosePositions", "u": "bot", "exact": true, "liq": []any{}, "sl": []any{[]any{u, float64(1)}}}, blk(5), blk(600),
+			{"a": "levClosePositions", "u": "bot", "exact": true, "liq": []any{}, "sl": []any{[]any{u, float64(1)}}}, blk(5),
+			{"a": "join", "u": "u3", "p": float64(1), "sz": "s1", "mode": "all"}, blk(3600),
+			{"a": "levClosePositions", "u": "bot", "exact": true, "liq": []any{}, "sl": []any{[]any{u, float64(1)}}}, blk(5)}
 	case 0: // unbalance the oracle pool with a big one-way swap, then rebalance it (weight-recovery bonus from the treasury)
 		return []Step{{"a": "swapIn", "u": u, "p": float64(1), "din": "uusdc", "sz": pick(r, "x2", "big", "x2"), "limit": "loose"}, blk(5),
 			{"a": "swapIn", "u": u, "p": float64(1), "din": "uatom", "sz": pick(r, "s3", "s2"), "limit": "loose"}, blk(5),
